@@ -31,6 +31,9 @@ def run(ctx):
     ctx.rule('R18e', 'the max_split bound is maintained on every separator path (counted by the '
                      'number of collected parts, or by a counter incremented on every path that '
                      'consumes a separator)', 1)
+    ctx.rule('R18g', 'delimiter comparisons between an argument group and its inner group compare like with '
+                     'like (opening with opening)', 1)
+    ctx.rule('R18h', 'a key-value value loses its braces only when it consists of exactly one brace group', 1)
     ctx.rule('R18f', 'parse_keyval_content splits at the comma separator, then each part at the '
                      'equals separator with max_split=1; policies first/last/concatenate/error all '
                      'have a branch', 4)
@@ -206,6 +209,47 @@ def run(ctx):
     ctx.decide('R18f', idx.get('key_nl') == 'eq_sep_parts[0]' and idx.get('value_nl') == 'eq_sep_parts[1]',
                m, ks[0] if ks else pk, 'key = part before, value = part after the equals sign',
                'key/value are taken from %s' % idx, construct='keyval: key/value parts')
+
+    # ---------------------------------------------------------------- R18g / R18h
+    # the value's braces are stripped only when the value IS one brace group
+    unw = [x for x in iter_own(pk) if isinstance(x, ast.Assign) and isinstance(x.value, ast.Attribute)
+           and x.value.attr == 'nodelist' and isinstance(x.value.value, ast.Subscript)
+           and isinstance(x.value.value.slice, ast.Constant) and x.value.value.slice.value == 0]
+    for x in unw:
+        base = unparse(x.value.value.value).rsplit('.nodelist', 1)[0]
+        facts = {(unparse(t), pol) for t, pol in atomic_facts(x)}
+        exact = ('len(%s) == 1' % base, True) in facts or ('len(%s.nodelist) == 1' % base, True) in facts
+        isgrp = any(pol and 'isNodeType(LatexGroupNode)' in t and t.startswith(base) for t, pol in facts)
+        ctx.decide('R18h', exact and isgrp, m, x,
+                   'braces stripped only from a value that consists of exactly one group',
+                   'the value is replaced by the contents of its first group without the test that the '
+                   'value consists of exactly that one group (facts: %s): for k={a}b everything after '
+                   'the group is dropped' % sorted(t for t, pol in facts if pol and base in t),
+                   construct='keyval: strip value braces')
+    if not unw:
+        ctx.unknown('R18h', m, pk, 'no brace-stripping assignment found', construct='keyval: strip value braces')
+    # opening delimiters are compared with opening delimiters (index coherence), package-wide in
+    # the argument-content helpers
+    pim = repo.mod('pylatexenc.latexnodes._parsedargsinfo')
+    n_cmp = 0
+    for mod_ in (pim, m):
+        for c_ in ast.walk(mod_.tree):
+            if isinstance(c_, ast.Compare) and len(c_.ops) == 1 and isinstance(c_.ops[0], (ast.Eq, ast.NotEq)):
+                a_, b_ = c_.left, c_.comparators[0]
+                if all(isinstance(z, ast.Subscript) and isinstance(z.slice, ast.Constant)
+                       and isinstance(z.value, ast.Attribute) and z.value.attr.endswith('delimiters')
+                       for z in (a_, b_)):
+                    n_cmp += 1
+                    ctx.decide('R18g', a_.slice.value == b_.slice.value, mod_, c_,
+                               'delimiter %d compared with delimiter %d' % (a_.slice.value, b_.slice.value),
+                               'an %s delimiter is compared with an %s delimiter (%s): the "different '
+                               'delimiters" guard is always true, a doubly braced argument {{a=1,b=2}} is '
+                               'unwrapped twice and its protected commas split'
+                               % ('opening' if a_.slice.value == 0 else 'closing',
+                                  'opening' if b_.slice.value == 0 else 'closing', short(c_)),
+                               construct='delimiter comparison: ' + short(c_, 80))
+    if not n_cmp:
+        ctx.unknown('R18g', pim, None, 'no delimiter comparison found', construct='delimiter comparison')
 
     # ---------------------------------------------------------------- R18d
     for name in ('filter', 'split_at_node', 'split_at_chars', 'parse_keyval_content',
